@@ -233,6 +233,61 @@ func genC09(tier string, r *rng) {
 			}
 		}
 	}
+	// feature-bearing JWTs before plain ones: every optional header mechanism (crit lists of 1..3 names, replicated claims,
+	// unregistered parameters), each followed by tokens that merely mention the same names
+	{
+		j := func(h, p string) []byte {
+			e := base64.RawURLEncoding.EncodeToString
+			return []byte(e([]byte(h)) + "." + e([]byte(p)) + ".c2ln")
+		}
+		ctx := [][]byte{
+			j(`{"alg":"HS256","crit":["b64"],"b64":false}`, `{"sub":"a"}`),
+			j(`{"alg":"HS256","crit":["b64","exp"],"b64":false,"exp":1700000000}`, `{"iss":"i"}`),
+			j(`{"alg":"HS256","crit":["x","y","z"],"x":1,"y":2,"z":3}`, `{"sub":"b"}`),
+			j(`{"alg":"ES256","kid":"k","iss":"hdr-iss","sub":"hdr-sub","aud":"hdr-aud"}`, `{"iss":"i","sub":"s","aud":"a"}`),
+		}
+		plain := [][]byte{
+			j(`{"alg":"HS256","b64":true}`, `{"sub":"c"}`),
+			j(`{"alg":"HS256","sub":"in-header"}`, `{"sub":"d","exp":1700000000}`),
+			j(`{"alg":"none","x":"y"}`, `{"iss":"i","sub":"s","aud":"a","exp":1,"nbf":2,"iat":3,"jti":"j"}`),
+		}
+		for _, c := range ctx {
+			args := []string{fmt.Sprint(3 + len(plain))}
+			for k := 0; k < 3; k++ {
+				args = append(args, hxs("t.jwt"), hx(c))
+			}
+			for _, p := range plain {
+				args = append(args, hxs("t.jwt"), hx(p))
+			}
+			emit("seq", args...)
+		}
+	}
+	// damaged structures before well-formed ones: inputs whose parse fails k levels down (a counter or stack left behind by
+	// an error path adds up over several of them), and one input nested very deep, each followed by small well-formed
+	// generic structures
+	{
+		nest := func(depth int, inner []byte) []byte {
+			d := inner
+			for k := 0; k < depth; k++ {
+				d = append(derTagLen(0, 16, true, len(d)), d...)
+			}
+			return d
+		}
+		good := [][]byte{nest(2, []byte{0x0c, 0x02, 'h', 'i'}), nest(1, append([]byte{0x06, 0x03, 0x2a, 0x03, 0x04}, 0x13, 0x01, 'x')), nest(5, []byte{0x05, 0x00})}
+		damaged := nest(12, []byte{0x02, 0x05, 0x01}) // INTEGER announcing 5 octets, 1 present: the innermost SEQUENCE's content is malformed
+		args := []string{"0"}
+		cnt := 0
+		for round := 0; round < 10; round++ {
+			args = append(args, hxs("d.der"), hx(damaged))
+			args = append(args, hxs("g.der"), hx(good[round%len(good)]))
+			cnt += 2
+		}
+		args[0] = fmt.Sprint(cnt)
+		emit("seq", args...)
+		for _, depth := range []int{65, 100, 300, 1001} {
+			emit("seq", "4", hxs("deep.der"), hx(nest(depth, []byte{0x05, 0x00})), hxs("g.der"), hx(good[0]), hxs("g2.der"), hx(good[1]), hxs("g3.der"), hx(good[2]))
+		}
+	}
 	nseq, slen := 12, 50
 	if tier == "thorough" {
 		nseq, slen = 40, 400
